@@ -10,7 +10,7 @@
 From Coq Require Import ZArith NArith List Bool String.
 From HV Require Import Base.Word Base.Keccak Spec.AssertSpec Model.AssertModel Proofs.AssertProofs
   Proofs.AssertCondProofs Proofs.AssertRunProofs Gen.GenAssertSelectors Gen.GenAssumeSelector
-  Gen.GenAssertArms Gen.GenExcHierarchy Gen.GenRunExcepts.
+  Gen.GenAssertArms Gen.GenExcHierarchy Gen.GenRunExcepts Gen.GenJumpi.
 Import ListNotations.
 Open Scope list_scope.
 Open Scope Z_scope.
@@ -109,10 +109,14 @@ Proof. exact gfs_iff. Qed.
 Print Assumptions C13_global_fail.
 
 (* ------------------------------------------------------------------ sequences of calls *)
-(* A frame (at any call depth: any frame stack without a failure flag) that issues any sequence
-   of cheatcode calls -- vm.assert* returning a condition, vm.assume, or a call whose handler
-   raises a class SEVM.run turns into a stuck path -- and then returns.  For EVERY such sequence,
-   every oracle that is sound when it answers unsat, and every input i, measured against
+(* A frame (at any call depth: any frame stack without a failure flag) that runs any sequence
+   of steps -- vm.assert* returning a condition, vm.assume, a call whose handler raises a class
+   SEVM.run turns into a stuck path, or a two-way branch (SEVM.jumpi, decision part regenerated)
+   on any condition, whose sides rejoin and run the rest -- and then returns.  The branch steps
+   make the run a tree: a later assertion is reached by several sibling paths under different
+   constraints, each consulting the oracle with ITS path.  For EVERY such sequence, every oracle
+   that is sound when it answers unsat (for the path it is asked about: what one path learnt is
+   no answer for a sibling -- see C13_seq_unsound_oracle_misses), and every input i, measured against
    Foundry's run of the same sequence on i alone (stop at the first false assertion: FAIL; at the
    first false assumption: REJECTED; at an unsupported call: no verdict):
    no exception escapes, and
@@ -122,13 +126,15 @@ Print Assumptions C13_global_fail.
      - i is on a stuck path only if Foundry meets the unsupported call or fails, and always when
        Foundry meets the unsupported call (so such an input is never counted as passing). *)
 Theorem C13_seq_exact :
-  forall (Input : Type) (check : path Input -> cond Input -> sat_result) (lit_false : cond Input -> bool),
+  forall (Input : Type) (check : path Input -> cond Input -> sat_result) (lit_false : cond Input -> bool)
+         (loop : Z),
     (forall p c, check p c = Unsat -> forall i, sat_path Input p i = true -> c i = false) ->
     (forall c, lit_false c = true -> forall i, c i = false) ->
+    0 < loop ->
     forall (p : list (cheat Input)) (e : exec Input),
       Forall (fun k => match k with KRaise _ cls => catch_action cls = Some AStuck | _ => True end) p ->
       (forall c, In c (ex_frames Input e) -> is_global_fail_set c = false) ->
-      exists outs, run_prog Input check lit_false e p = Some outs /\
+      exists outs, run_prog Input check lit_false loop e p = Some outs /\
         forall i,
           let v := foundry_run Input i (map (pstep_of Input) p) in
           let pr := sat_path Input (ex_path Input e) i in
@@ -156,9 +162,23 @@ Theorem C13_seq_escape_refuted :
     (forall c, lit_false c = true -> forall j, c j = false) /\
     sat_path bool (ex_path bool e) i = true /\
     foundry_run bool i (map (pstep_of bool) p) = VFail /\
-    run_prog bool check lit_false e p = None.
+    run_prog bool check lit_false 2 e p = None.
 Proof. exact seq_escape_refuted. Qed.
 Print Assumptions C13_seq_escape_refuted.
+
+(* ... and the soundness hypothesis on the oracle cannot be dropped: an oracle that answers
+   unsat for a query that is satisfiable on the path it is asked about (e.g. an answer remembered
+   from a sibling path with other constraints) makes the assert branch fork no failing state, and
+   the failure is missed.  The check therefore tests every recorded unsat answer of the real
+   ex.check against the sampled inputs of the path it was given for. *)
+Theorem C13_seq_unsound_oracle_misses :
+  exists (check : path bool -> cond bool -> sat_result) (e : exec bool) (p : list (cheat bool)) (i : bool) outs,
+    sat_path bool (ex_path bool e) i = true /\
+    foundry_run bool i (map (pstep_of bool) p) = VFail /\
+    run_prog bool check (fun _ => false) 2 e p = Some outs /\
+    existsb (fun o => reported_failure bool o i) outs = false.
+Proof. exact seq_unsound_oracle_misses. Qed.
+Print Assumptions C13_seq_unsound_oracle_misses.
 
 (* ------------------------------------------------------------------ the condition *)
 (* For every forge-std overload d, every calldata cd that is a valid ABI encoding for d (strict
@@ -282,7 +302,7 @@ Example C13_seq_nonvacuous :
   let check : path (bool * bool) -> cond (bool * bool) -> sat_result := fun _ _ => Unknown in
   let e := mkExec (bool * bool) [] [Ctx ENone []; Ctx ENone []] in
   let p := [KAssume (bool * bool) fst; KAssert (bool * bool) snd; KRaise (bool * bool) unsupported_class] in
-  exists outs, run_prog (bool * bool) check (fun _ => false) e p = Some outs /\
+  exists outs, run_prog (bool * bool) check (fun _ => false) 2 e p = Some outs /\
     List.length outs = 2%nat /\
     map (fun i => existsb (fun o => reported_failure (bool * bool) o i) outs) [(true, false); (true, true); (false, false)]
       = [true; false; false] /\
@@ -290,4 +310,20 @@ Example C13_seq_nonvacuous :
       = [true; true; false] /\
     map (fun i => foundry_run (bool * bool) i (map (pstep_of (bool * bool)) p)) [(true, false); (true, true); (false, false)]
       = [VFail; VUnsupported; VRejected].
+Proof. eexists. vm_compute. repeat split; reflexivity. Qed.
+
+(* a branch on the asserted operand before the assertion: two sibling paths reach the same
+   assertion; the oracle refutes `not cond` on one of them only, and the other still forks its
+   failing state *)
+Example C13_seq_branch_nonvacuous :
+  (* inputs 0..3; branch on (i < 2), then assert (i < 3) *)
+  let lt (n : Z) : cond Z := fun i => i <? n in
+  let check : path Z -> cond Z -> sat_result := fun p c =>
+    if forallb (fun i => negb (sat_path Z p i && c i)) [0; 1; 2; 3] then Unsat else Sat in
+  let e := mkExec Z [] [Ctx ENone []] in
+  let p := [KBranch Z (lt 2); KAssert Z (lt 3)] in
+  exists outs, run_prog Z check (fun _ => false) 2 e p = Some outs /\
+    List.length outs = 3%nat /\
+    map (fun i => existsb (fun o => reported_failure Z o i) outs) [0; 1; 2; 3] = [false; false; false; true] /\
+    map (fun i => existsb (fun o => continues_with Z o i) outs) [0; 1; 2; 3] = [true; true; true; true].
 Proof. eexists. vm_compute. repeat split; reflexivity. Qed.
